@@ -467,6 +467,36 @@ Fixpoint stable_labels (s : skel) : list str :=
   | _ => []
   end.
 
+(** may leave an enclosing loop / function early without an exception or a non-zero status *)
+Fixpoint escapes (s : skel) : bool :=
+  match s with
+  | Break | Return => true
+  | Exit c => Z.eqb c 0
+  | Seq a b | If _ _ a b | Loop _ a b => escapes a || escapes b
+  | Try b h _ f => escapes b || escapes h || escapes f
+  | Scope b => escapes b
+  | _ => false
+  end.
+
+(** the body of the first loop labelled l *)
+Fixpoint loop_body (l : str) (s : skel) : option skel :=
+  match s with
+  | Loop l' b e =>
+      if eqs l' l then Some b
+      else match loop_body l b with Some x => Some x | None => loop_body l e end
+  | Seq a b | If _ _ a b =>
+      match loop_body l a with Some x => Some x | None => loop_body l b end
+  | Try b h _ f =>
+      match loop_body l b with
+      | Some x => Some x
+      | None => match loop_body l h with Some x => Some x | None => loop_body l f end
+      end
+  | Scope b => loop_body l b
+  | _ => None
+  end.
+Definition loop_runs_to_end (s : skel) (l : str) : bool :=
+  match loop_body l s with Some b => negb (escapes b) | None => false end.
+
 Fixpoint prefix_of (p s : str) : bool :=
   match p, s with
   | [], _ => true
@@ -474,9 +504,16 @@ Fixpoint prefix_of (p s : str) : bool :=
   | _, _ => false
   end.
 
-(** no call of s has a name starting with one of the given prefixes *)
-Definition no_call_with_prefix (s : skel) (ps : list str) : bool :=
-  forallb (fun n => negb (existsb (fun p => prefix_of p n) ps)) (calls s).
+(** p occurs somewhere in s *)
+Fixpoint infix_of (p s : str) : bool :=
+  prefix_of p s || match s with [] => false | _ :: s' => infix_of p s' end.
+
+(** call names that mention one of the given fragments (e.g. "os.chdir") *)
+Definition mentions (frags : list str) (n : str) : bool := existsb (fun p => infix_of p n) frags.
+
+(** s itself makes no call whose name satisfies [eff] (the primitive state-changing operations) *)
+Definition no_effect_calls (eff : str -> bool) (s : skel) : bool :=
+  forallb (fun n => negb (eff n)) (calls s).
 
 Definition has_call (s : skel) (n : str) : bool := mem_str n (calls s).
 Definition has_stable_label (s : skel) (l : str) : bool := mem_str l (stable_labels s).
